@@ -181,16 +181,43 @@ def make_forest(forest, allow_fallback, eval_fallback=None):
     return make(0, 0, 1, allow_fallback, topos=[_tup(forest)], eval_fallback=eval_fallback)
 
 
-def make(nmax, lo, hi, allow_fallback, reach=False, topos=None, eval_fallback=None):
+def make(nmax, lo, hi, allow_fallback, reach=False, topos=None, eval_fallback=None, refreshed=False):
+    """refreshed: the graph object first holds another valid topology (the one `stride` places further in the enumeration) for
+    which all formulas are generated, and is then refreshed (refresh_from) to the topology under test: whatever the object
+    remembers about the previous layout must not leak."""
     eval_fallback = allow_fallback if eval_fallback is None else eval_fallback
-    topos = topologies(nmax)[lo:hi] if topos is None else topos
+    alltopos = topologies(nmax) if topos is None else topos
+    topos = alltopos[lo:hi] if topos is None else topos
 
     def fn(ex):
         k = ex.choice("topology", len(topos))
         forest = topos[k]
         comps, conns, info, roots = build(forest)
         try:
-            graph = _MicrogridComponentGraph(comps, conns)
+            if refreshed:
+                graph = None
+                for off in range(8):   # the first valid layout from there on
+                    prev = alltopos[(lo + k + max(1, len(alltopos) // 3) + off) % len(alltopos)]
+                    pc, pn, pinfo, _ = build(prev)
+                    try:
+                        graph = _MicrogridComponentGraph(pc, pn)
+                        break
+                    except InvalidGraphError:
+                        continue
+                if graph is None:
+                    raise core.HarnessError("no valid previous topology")
+                connection_manager._CONNECTION_MANAGER = types.SimpleNamespace(component_graph=graph, api_client=None)
+                preg, psnd = ChannelRegistry(name="p"), Broadcast(name="p").new_sender()
+                for label, cls in GENS:
+                    ids = (set(pinfo.get("bats", [])) or None) if label == "battery" else (set(pinfo.get("evs", [])) or None) if label == "ev" else None
+                    cls("ns0", preg, psnd, FormulaGeneratorConfig(component_ids=ids, allow_fallback=allow_fallback)).generate()
+                for c_ in graph.components():
+                    for pred in ("is_grid_meter", "is_pv_meter", "is_battery_meter", "is_ev_charger_meter", "is_chp_meter",
+                                 "is_pv_chain", "is_battery_chain", "is_ev_charger_chain", "is_chp_chain"):
+                        getattr(graph, pred)(c_)
+                graph.refresh_from(comps, conns)
+            else:
+                graph = _MicrogridComponentGraph(comps, conns)
         except InvalidGraphError:
             return
         connection_manager._CONNECTION_MANAGER = types.SimpleNamespace(component_graph=graph, api_client=None)
@@ -262,4 +289,13 @@ def instances(tier):
                          f"topologies {lo}..{hi - 1} of {n} with <= {nmax} components, allow_fallback={fb}, "
                          + ("primaries missing: fallback formulas evaluated" if ev else "all primaries valid"),
                          budget_s=600, validate_every=20, programs=hi - lo))
+    n6 = len(topologies(6))
+    rch = 4 if tier == "quick" else 16
+    nr, tagr = (6, n6) if tier == "quick" else (nmax, n)
+    stepr = (tagr + rch - 1) // rch
+    for ci, lo in enumerate(range(0, tagr, stepr)):
+        hi = min(tagr, lo + stepr)
+        out.append(I(f"n{nr}-refreshed-chunk{ci}", "make", (nr, lo, hi, False, False, None, False, True),
+                     f"topologies {lo}..{hi - 1} with <= {nr} components on a graph object that held another topology before (formulas generated, "
+                     "every is_* predicate queried) and was refreshed with refresh_from()", budget_s=300, validate_every=20, programs=hi - lo))
     return out
